@@ -72,8 +72,8 @@ class C10(core.Check):
     GEN = []
     PROPS = 'props/C10.v'
     MODEL_IMPORTS = ['model.StrSpace', 'model.UserFn']
-    QUICK_CASES = 150
-    THOROUGH_CASES = 4000
+    QUICK_CASES = 90
+    THOROUGH_CASES = 1500
     TRUSTED = ['hand model model/StrSpace.v + model/UserFn.v of StringSpace / DataSegment / Scalars / Arrays / '
                'ExpressionParser.parse / UserFunction.evaluate, tied by correspondence on random histories through a '
                'real Session (state read from the interpreter internals after every step); printing of a history as '
@@ -81,7 +81,10 @@ class C10(core.Check):
                'var_start, code_start and the memory size are read from the Session and passed to the model; '
                'the order of temp_values (a Python set) is modelled as insertion order, so addresses of individual '
                'strings are not compared, only lengths, contents, current, _temp and free memory']
-    PARTIAL = None
+    PARTIAL = ('the statement-level invariant theorem covers LET, SWAP, ERASE, DIM, CLEAR, DEF FN but not MID$= and '
+               'LSET/RSET; the refinement to an abstract variable map is proved only in its storage half (no value '
+               'changes between assignments, stored pointers read back); compaction is stated per run of equal '
+               'addresses of the sorted root list')
     RULE = ('histories of 5..300 statements (LET with string expressions, MID$/LSET/RSET, SWAP, ERASE, DIM, CLEAR[,n], '
             'FRE, DEF FN + calls) over 5 string scalars, 2 string arrays and 7 numeric scalars, CLEAR ,n leaving 30 '
             'bytes .. default; each step is a program line started with GOTO or a direct-mode line; after each step '
